@@ -235,6 +235,9 @@ func runC06(res *lp.Result) {
 			if piece < 1 {
 				piece = 1
 			}
+			if piece == 1 && len(enc) > 8192 && len(p)%1024 != 0 {
+				continue // one byte per Read over long segments: for a sample of the lengths only
+			}
 			br := bytes.NewReader(two)
 			src := &chunkedReader{r: br, n: piece}
 			d1, e1 := codecs[cname].DecodeSegment(src)
